@@ -73,9 +73,14 @@ build_variant() {
     echo "$SIMKEY" > "$D/sim/.key"
     relink=1
   fi
-  if [ $relink = 1 ] || [ ! -x "$D/simcheck" ]; then
+  if [ $relink = 1 ] || [ ! -x "$D/simcheck" ] || { [ "$V" = "plain" ] && [ ! -x "$D/simcheck-vg" ]; }; then
     $CXX $LDFLAGS -o "$D/simcheck.tmp" "$D"/sim/*.o "$D"/lib/*.o -pthread
     mv "$D/simcheck.tmp" "$D/simcheck"
+    if [ "$V" = "plain" ]; then
+      # the valgrind binary: same objects without the allocator replacement
+      $CXX $LDFLAGS -o "$D/simcheck-vg.tmp" $(ls "$D"/sim/*.o | grep -v memfill.o) "$D"/lib/*.o -pthread
+      mv "$D/simcheck-vg.tmp" "$D/simcheck-vg"
+    fi
   fi
   flock -u 9
 }
